@@ -1355,6 +1355,30 @@ pub fn c01_after(ck: &mut Checker, sim: &mut Sim, session: usize, proto: Proto, 
                     if nr > 0 && honest.len() == got.len() + nr && honest[nr..] == got[..] {
                         clause = "reorg_section_omitted_by_a_peer_on_another_branch_accepted";
                     }
+                    // the honest answer preceded by true ancestors of the start block, shaped
+                    // like a reorg section nobody needed
+                    if nr == 0 && got.len() > honest.len() && got[got.len() - honest.len()..] == honest[..] {
+                        let view = sim.peers.iter().find(|p| p.session == Some(session)).map(|p| p.view);
+                        let extra_real = view
+                            .map(|v| {
+                                got[..got.len() - honest.len()].iter().all(|h| {
+                                    packed::VerifiableHeaderReader::from_slice(h)
+                                        .ok()
+                                        .map(|r| {
+                                            let n: u64 = r.header().raw().number().unpack();
+                                            sim.world
+                                                .block_opt(v.branch, n)
+                                                .map(|b| b.verifiable().as_slice() == &h[..])
+                                                .unwrap_or(false)
+                                        })
+                                        .unwrap_or(false)
+                                })
+                            })
+                            .unwrap_or(false);
+                        if extra_real {
+                            clause = "superfluous_reorg_section_of_true_ancestors_accepted";
+                        }
+                    }
                 }
             }
             if let Some(rest) = tag.note.strip_prefix("alter parent chain root of header ") {
